@@ -105,9 +105,20 @@ func TestC02Delivery(t *testing.T) {
 		func(t *testing.T, i int, rep *vk.Report) {
 			p := paths[i]
 			RunBubble(t, fmt.Sprintf("p%d", i), func(t *testing.T) {
-				w := NewWorld(t, 1, NodeOpts{Prefill: p.Prefill, PrefillState: p.State})
+				nodes := 1
+				if p.FailAt >= 0 {
+					nodes = 2 // a second destination node, so that a refused local write is not the only outcome of the distribution
+				}
+				w := NewWorld(t, nodes, NodeOpts{Prefill: p.Prefill, PrefillState: p.State})
 				defer w.Close()
 				w.Idle(time.Second) // let the consumer work through a pre-filled log
+				// a subscription whose session is not connected (created through the RPC API) sits first in the filter's list
+				w.Node(1).DState.Subscriptions().CreateFrom("ghost", 1, []byte("_default/t/#"), 1)
+				if nodes == 2 {
+					r := w.NewClient("sub-remote", 2, AckAll)
+					r.Connect(ConnectOpts{ClientID: "sub-remote", KeepAlive: 60})
+					r.Subscribe(1, 1, "t/#")
+				}
 				subs := []*Client{}
 				for q := int32(0); q <= 2; q++ {
 					c := w.NewClient(fmt.Sprintf("sub-q%d", q), 1, AckAll)
